@@ -30,6 +30,8 @@ CFG = {
         "Swat4.C10.lock_ttl",
         "Swat4.C10.consistentB_sound",
         "Swat4.C10.consistentB_iff",
+        "Swat4.C10.driver_runCall_consistent",
+        "Swat4.C10.driver_expire_consistent",
     ],
     "shards": (1, 16),
     "nontrivial": _c10_nontrivial,
@@ -62,7 +64,7 @@ CFG = {
                 "and wstep_atomic - its store effect is nothing or exactly one atomic step; C10_main / C10_world - invariant along every "
                 "event list (any number of clients, any interleaving, expiry events, queue commands); C10_crash - hence after every prefix, "
                 "i.e. after a client death at any command boundary; lock_ttl - every lock cell in every reachable state carries an expiry; "
-                "consistentB_sound / consistentB_iff - the driver's executable oracle is the invariant. That the real code issues exactly "
+                "consistentB_sound / consistentB_iff - the driver's executable oracle is the invariant (plus: no status-set member with a bit index outside 0..8); driver_runCall_consistent - every model state the driver itself produces (calls cut anywhere) is consistent. That the real code issues exactly "
                 "these atomic steps is established by the differential run only: results, per-command traces and the raw keyspace after "
                 "every item (with crashes injected at command boundaries) are compared with the model, and the oracle is evaluated on the "
                 "implementation's own dumps.",
